@@ -361,3 +361,65 @@ func occurrence(fn *ssa.Function, c ssa.CallInstruction) int {
 	}
 	return 0
 }
+
+// ENUM-EVAL -------------------------------------------------------------------
+
+// admittedEnum computes which values of an enum-typed message field the
+// message's own ValidateBasic lets through: the method is explored once per
+// candidate (every declared constant, plus one value that is no constant) with
+// the field fixed; a candidate is admitted when a nil-error exit is reachable.
+func admittedEnum(w *World, tm *Terms, msgType, field, enumType string) (admitted []int64, names map[int64]string) {
+	names = w.enumConsts(enumType)
+	mt := w.lookupNamed(typesPath, msgType)
+	vb := w.methodOf(mt, "ValidateBasic")
+	if vb == nil {
+		fatalf("%s has no ValidateBasic", msgType)
+	}
+	var cands []int64
+	max := int64(0)
+	for v := range names {
+		cands = append(cands, v)
+		if v > max {
+			max = v
+		}
+	}
+	cands = append(cands, max+1000) // "not a declared constant"
+	names[max+1000] = "<undeclared value>"
+	sort.Slice(cands, func(i, j int) bool { return cands[i] < cands[j] })
+	for _, c := range cands {
+		c := c
+		rr := &reachRule{w: w, want: func(*Effect) bool { return false }, reached: map[ssa.Instruction]bool{}}
+		rr.valueOf = func(x *Explorer, fr *Frame, v ssa.Value) AV {
+			if isNamed(v.Type(), typesPath, enumType) {
+				if t := x.TM.Of(fr, v); isField(t, field) {
+					return Int(c)
+				}
+			}
+			return Unknown
+		}
+		ok := false
+		for _, o := range NewExplorer(w, tm, rr).Run(vb, 0) {
+			if av, has := o.ErrAV(vb); has && o.Kind == ExitReturn && av.K != avNonNil {
+				ok = true
+			}
+		}
+		if ok {
+			admitted = append(admitted, c)
+		}
+	}
+	return
+}
+
+// bidTypeValuation fixes the bid type of the message being placed (the bid
+// record's Type is the message's BidType by value flow).
+func bidTypeValuation(c int64) func(x *Explorer, fr *Frame, v ssa.Value) AV {
+	return func(x *Explorer, fr *Frame, v ssa.Value) AV {
+		if isNamed(v.Type(), typesPath, "BidType") {
+			t := x.TM.Of(fr, v)
+			if (isField(t, "BidType") || isField(t, "Type")) && t.Args[0].Op == "param" {
+				return Int(c)
+			}
+		}
+		return Unknown
+	}
+}
